@@ -344,6 +344,11 @@ pub fn layout_module(l: &Layout) -> String {
             }
         },
     };
+    for (j, f) in l.fields.iter().enumerate() {
+        if let (13, Some(a)) = (f.syntax, f.array) {
+            let _ = writeln!(o, "const LEN{j}: usize = {};", a.count);
+        }
+    }
     let debug_attr = if l.debug { ", debug" } else { "" };
     let mut macro_types: Vec<String> = Vec::new();
     let struct_start = o.len();
@@ -362,7 +367,9 @@ pub fn layout_module(l: &Layout) -> String {
             et = format!("$t{}", macro_types.len() - 1);
         }
         let ty = match f.array {
-            Some(a) => format!("[{et}; {}]", if f.syntax == 2 || f.syntax == 3 { num(f, a.count) } else { a.count.to_string() }),
+            // class G: the length as a named constant (declared in front of the struct)
+            Some(_) if f.syntax == 13 => format!("[{et}; LEN{j}]"),
+            Some(a) => format!("[{et}; {}]", if matches!(f.syntax, 2 | 3 | 9 | 10) { num(f, a.count) } else { a.count.to_string() }),
             None => et,
         };
         match f.doc {
